@@ -137,7 +137,7 @@ def case_spec(case: dict, nrow=None) -> dict:
             nsl += 1
     for pos, name in sorted(ins, key=lambda t: -t[0]):
         order.insert(pos, name)
-    spec = {"n": n, "cols": ["s"] * k, "colorder": order, "header": case.get("header", "none"), "title": 0,
+    spec = {"n": n, "cols": ["sb"] * k, "colorder": order, "header": case.get("header", "none"), "title": 0,
             "page": {"nrow": nrow if nrow is not None else case["nrow"]}}
     if npb:
         spec["page_by"] = [key_vector(n, l) for l in range(npb)]
@@ -184,7 +184,8 @@ def resolve(doc, idx):
 
 def observe_cell(doc, cell):
     ev = next((e for e in cell.events if e[0] == "t"), None)
-    cp = ev[2] if ev else {}
+    # an empty cell has no text event: its character formatting is that of its text-less run group
+    cp = ev[2] if ev else (cell.empty_runs[-1] if cell.empty_runs else {})
     pp = cell.ppr
     o = {"font": (cp.get("f") + 1) if cp.get("f") is not None else None,
          "size": cp.get("fs") / 2 if cp.get("fs") is not None else None,
@@ -215,7 +216,14 @@ def observe_cell(doc, cell):
     return o
 
 
-def observe(doc, order):
+def blank_kind(r, j):
+    """the fixed blank pattern of docspec column class 'sb': one blank cell per row, null on even rows, "" on odd rows"""
+    if (r + j) % 3 == 0:
+        return "null" if r % 2 == 0 else "empty-string"
+    return None
+
+
+def observe(doc, shown):
     """-> cells {(r, j): obs}, rows {r: {...}}, pages [[r,...]]; problems list"""
     cells, rows, pages, problems = {}, {}, [], []
     for pi, pg in enumerate(doc.pages):
@@ -238,14 +246,29 @@ def observe(doc, order):
             rows[r] = {"page": pi, "seg": seg_start, "trq": tr.get("trq"),
                        "height": abs(tr["trrh"]) if tr.get("trrh") else tr.get("trgaph")}
             last = len(blk.cells) - 1
-            for j, cell in enumerate(blk.cells):
+            if len(blk.cells) != len(shown):
+                problems.append(f"data row {r} has {len(blk.cells)} cells, {len(shown)} columns are displayed")
+                continue
+            # cells are identified by POSITION within their tagged row; the tags of the non-empty ones must agree
+            for pos, cell in enumerate(blk.cells):
+                name = shown[pos]
+                if not name.startswith("c"):
+                    continue
+                j = int(name[1:])
                 tg = docspec.tag_of(cell.text)
-                if not tg or tg[0] != "D" or tg[2] is None:
+                blank = blank_kind(r, j)
+                if blank is None:
+                    if not tg or (tg[0], tg[1], tg[2]) != ("D", r, j):
+                        problems.append(f"cell at position {pos} of data row {r} reads {cell.text!r}, expected D{r}.{j}")
+                        continue
+                elif cell.text != "":
+                    problems.append(f"{blank} cell at position {pos} of data row {r} reads {cell.text!r}, expected an empty cell")
                     continue
                 o = observe_cell(doc, cell)
-                o["last"] = j == last
-                o["r"] = tg[1]
-                cells[(tg[1], tg[2])] = o
+                o["last"] = pos == last
+                o["r"] = r
+                o["blank"] = blank
+                cells[(r, j)] = o
         pages.append(prs)
     for prs in pages:
         for r in prs:
@@ -349,7 +372,7 @@ def direct(cells, rows, settings, colidx):
             if prop[:5] in ("width", "colou") and (exp is None or o["style_" + prop[-1]] is None):
                 continue  # width / colour of a border that is not there (a style mismatch is reported as such)
             if not num_eq(obs, exp):
-                out.append({"attr": attr_of_prop(prop), "prop": prop, "r": r, "j": j, "c": c, "obs": obs, "exp": exp})
+                out.append({"attr": attr_of_prop(prop), "prop": prop, "r": r, "j": j, "c": c, "obs": obs, "exp": exp, "blank": o["blank"]})
     return out
 
 
@@ -406,7 +429,7 @@ def twin_of(case, order):
     if hit is None:
         try:
             b2, _, doc2 = render(case_spec(case, nrow=HUGE))
-            cells2, rows2, pages2, _ = observe(doc2, order)
+            cells2, rows2, pages2, _ = observe(doc2, b2.shown)
             hit = (cells2, rows2, pages2, len(doc2.pages))
         except Exception as e:
             hit = f"{type(e).__name__}: {e}"
@@ -414,6 +437,10 @@ def twin_of(case, order):
             _TWINS.clear()
         _TWINS[key] = hit
     return hit
+
+
+def o_blank(key):
+    return blank_kind(key[0], key[1])
 
 
 def classify_cell_mismatches(ms, shapes, cells, rows, settings, colidx):
@@ -463,7 +490,7 @@ def eval_case(case: dict) -> dict:
         add(None, "document", "unparseable", str(doc.errors[:3]))
     order = b.colnames
     colidx = {j: order.index(f"c{j}") for j in range(case.get("k", K))}
-    cells, rows, pages, problems = observe(doc, order)
+    cells, rows, pages, problems = observe(doc, b.shown)
     for p in problems:
         add(None, "document", "structure", p)
     n = case["n"]
@@ -477,7 +504,7 @@ def eval_case(case: dict) -> dict:
         lst = [m for m in ms if m["attr"] == attr]
         m = lst[0]
         add(klasses[attr], attr, "direct",
-            f"{attr} ({shapes.get(attr, 'not varied')}): cell D{m['r']}.{m['j']} (original column {m['c']}, page starting at row {rows[m['r']]['p']}) "
+            f"{attr} ({shapes.get(attr, 'not varied')}): {(m['blank'] + ' ') if m['blank'] else ''}cell D{m['r']}.{m['j']} (original column {m['c']}, page starting at row {rows[m['r']]['p']}) "
             f"shows {m['prop']}={show(m['obs'])}, the attribute specifies {show(m['exp'])}", len(lst))
 
     # row-level attributes: consistency
@@ -541,7 +568,7 @@ def eval_case(case: dict) -> dict:
                         diffs.setdefault((attr, k), []).append((key, prop, o[prop], o2[prop]))
             for (attr, k), lst in sorted(diffs.items(), key=str):
                 key, prop, a, bb = lst[0]
-                add(k, attr, "metamorphic", f"{attr} ({shapes.get(attr, 'not varied')}): cell D{key[0]}.{key[1]} has {prop}={show(a)} with nrow={case['nrow']} "
+                add(k, attr, "metamorphic", f"{attr} ({shapes.get(attr, 'not varied')}): {(o_blank(key) + ' ') if o_blank(key) else ''}cell D{key[0]}.{key[1]} has {prop}={show(a)} with nrow={case['nrow']} "
                     f"({npages} pages) but {show(bb)} with nrow={HUGE} ({npages2} pages)", len(lst))
             for attr, (prop, _) in ROW_ATTRS.items():
                 bad = [r for r in sorted(rows) if r in rows2 and rows[r][prop] != rows2[r][prop]]
@@ -556,6 +583,13 @@ def eval_case(case: dict) -> dict:
             cnt["metamorphic-pairs"] = 1
 
     cnt["cells-checked"] = len(cells)
+    for (r, j), o in cells.items():
+        if o["blank"]:
+            cnt[f"blank-{o['blank']}-cells-checked"] = cnt.get(f"blank-{o['blank']}-cells-checked", 0) + 1
+            if rows[r]["first"] and rows[r]["p"] > 0:
+                cnt["blank-cell-on-first-row-of-a-later-page"] = 1
+            if r == n - 1:
+                cnt["blank-cell-in-last-row"] = 1
     cnt["pages=1" if npages == 1 else "pages>1"] = 1
     if npages > 1 and all(len(p) == 1 for p in pages):
         cnt["one-row-per-page"] = 1
@@ -628,11 +662,14 @@ def plan(run):
     run.rule = ("every body attribute (25) x shape {scalar, 1 x ncol, nrow x ncol, row pattern of R rows with 1 < R < nrow (R in 2,3; thorough also 4,7) recycled "
                 "down the table: original row r shows pattern[r mod R]}, values alphabet[(2r+c) mod 3] over the ORIGINAL frame shape "
                 f"x rows {sizes} x nrow ladder from one row per page to one page x column removal {{none; page_by or subline_by removing 1 column at "
-                "every position; four 2-column removals (thorough: every position pair)}} incl. page_by with new_page; 3 data columns. Quick: one "
+                "every position; four 2-column removals (thorough: every position pair)}} incl. page_by with new_page; 3 data columns, one cell per row blank (null / empty string on a diagonal, so blanks hit first, middle and last rows and page starts). Quick: one "
                 "attribute at a time, one of three value alphabets per attribute rotated by VERIF_SEED; thorough: all three alphabets and every "
                 "position pair for tables of <= 9 rows, first alphabet for 16 and 40 rows, plus all pairs of attributes x shapes on a reduced layout set. Every case is evaluated by the direct rule and against its huge-nrow twin. "
                 "non-trivial = >= 2 pages, or a column removed, or a non-scalar shape; distinct = distinct case")
     run.assumptions = [
+        "every data row has exactly one blank cell ((r + j) mod 3 == 0: null on even rows, \"\" on odd rows) and two tagged ones; cells are "
+        "identified by position within their tagged row, and a blank cell's character formatting is read from its text-less run group "
+        "(reader: Cell.empty_runs) - an empty cell is a rendered data cell and must carry the same formatting",
         "the RTF reader (mc/rtfreader) extracts character, paragraph, cell and border properties correctly; cells are found by D<r>.<c> tags only",
         "attributes that a case does not vary are expected at the value the constructed RTFBody reports through its public fields",
         "top border of each page's first data row / bottom border of each page's last data row are prescribed by C07 and excluded here",
@@ -687,6 +724,7 @@ def plan(run):
                         pairs.append(c)
         run.layer("attribute-pairs", "mc.props.c09:eval_case", pairs, chunk=40, total=len(pairs))
     for need in ("pages=1", "pages>1", "one-row-per-page", "removed-1", "removed-2", "shape-scalar", "shape-row", "shape-matrix", "shape-pattern",
-                 "matrix-on-page-starting-off-cycle", "pattern-on-page-starting-off-cycle", "mid-page-segment", "metamorphic-pairs", "cells-checked"):
+                 "matrix-on-page-starting-off-cycle", "pattern-on-page-starting-off-cycle", "blank-null-cells-checked",
+                 "blank-empty-string-cells-checked", "blank-cell-on-first-row-of-a-later-page", "blank-cell-in-last-row", "mid-page-segment", "metamorphic-pairs", "cells-checked"):
         if not run.cnt.get(need):
             run.harness_errors.append({"layer": "vacuity", "case": None, "error": f"counter {need} is zero: that part of the property was never exercised"})
